@@ -96,6 +96,8 @@ func init() {
 			if !s.locked && s.readers == 0 {
 				s.locked = true
 				s.owner = g
+				it.raceAcquire(syncKey{mu.Obj, mu.Off})
+				it.raceAcquire(syncKey{c.Obj, c.Off})
 				return true
 			}
 			return false
@@ -114,6 +116,7 @@ func init() {
 	intrinsics["(*sync.Cond).Broadcast"] = func(it *Interp, a []Value) Value {
 		c := a[0].(PtrV)
 		cs := it.condAt(c)
+		it.raceRelease(syncKey{c.Obj, c.Off})
 		cs.bcast = cs.seq
 		cs.credits = 0
 		cs.waiting = 0
